@@ -107,6 +107,9 @@ def corpus(tier, seed):
             calls.append("c_linalg<%s,%d>(%du);" % (t, n, sd()))
     for (m, k, n) in [(2, 2, 2), (3, 5, 7)] + ([] if tier == "quick" else [(4, 4, 4), (1, 3, 9), (6, 2, 11)]):
         calls.append("c_nonprim<%d,%d,%d>(%du);" % (m, k, n, sd()))
+    for t in (["double"] if tier == "quick" else TYPES):
+        for (a, b, c) in ([(2, 3, 4)] if tier == "quick" else [(2, 3, 4), (4, 3, 2), (3, 3, 3), (2, 5, 3)]):
+            calls.append("c_es5<%s,%d,%d,%d>(%du);" % (t, a, b, c, sd()))
     if tier == "quick":
         # stratified sample: every case template at least twice, every element type
         by = {}
@@ -192,6 +195,121 @@ def run_probe(v, wd, tier):
                          "vsize_dvd_alignment, and the Cfg every kernel model takes) no longer describes config.h / macros.h / simd_vector_abi.h",
                          "flagset": s, "flags": FLAGSETS[s], "input": inp, "impl": obs, "model": mo, "fields": bad}, nofail=True)
     return len(inputs), mism, list(zip(names, inputs, impl, model))[:2]
+
+
+# ---------------------------------------------------------------------------------------------------
+# Cross-property stage: the oracle programs of the OTHER properties (their real-type groups: each case is judged inside
+# the harness against a plain-loop / exact reference) are rebuilt under configurations their own checks do not use —
+# other C++ level, other optimisation level, runtime checks off, every documented tuning macro — keeping the ISA flag
+# set of the group.  A case that is right under its home configuration and wrong, rejected by the compiler or crashing
+# under the alternative one is a configuration dependence (C06), reported with the concrete call and both flag sets.
+# -O3 is deliberately not among the alternatives of this stage: with g++ 12.2 -O3 and the AVX-512 flags the SLP vectoriser
+# miscompiles plain element-by-element code of a HARNESS (a symmetric fill `S(i,j)=A(i,j); S(j,i)=A(i,j)` through
+# Tensor::operator() loses one store; correct with -fno-tree-slp-vectorize, with clang++ -O3 and under ASan/UBSan), which would be
+# reported as a configuration dependence of the library although no library kernel is involved (see DESIGN.md 10.5).  -O3 stays in the
+# configuration matrix of the corpus above, whose cases do not build their inputs that way.
+ALTS = [
+    ("c++17/-O1", dict(std="c++17", opt="-O1", defs=[])),
+    ("c++14/-O0", dict(std="c++14", opt="-O0", defs=[])),
+    ("c++17/-O1/NDEBUG", dict(std="c++17", opt="-O1", defs=["-DNDEBUG"])),
+    ("USE_HADD", dict(defs=["-DFASTOR_USE_HADD"])),
+    ("MATMUL_BLOCKS_3x2", dict(defs=["-DFASTOR_MATMUL_INNER_BLOCK_SIZE=3", "-DFASTOR_MATMUL_OUTER_BLOCK_SIZE=2"])),
+    ("TRANS_BLOCKS_2x2", dict(defs=["-DFASTOR_TRANS_OUTER_BLOCK_SIZE=2", "-DFASTOR_TRANS_INNER_BLOCK_SIZE=2"])),
+    ("DONT_PERFORM_OP_MIN", dict(defs=["-DFASTOR_DONT_PERFORM_OP_MIN"])),
+    ("USE_VECTORISED_EXPR_ASSIGN", dict(defs=["-DFASTOR_USE_VECTORISED_EXPR_ASSIGN"])),
+    ("DONT_VECTORISE", dict(defs=["-DFASTOR_DONT_VECTORISE"])),
+    ("c++17/ZERO_INITIALISE", dict(std="c++17", defs=["-DFASTOR_ZERO_INITIALISE"])),
+]
+CROSS_MODULES = [("C01", "c01", "real_groups"), ("C02", "c02", "all_real_groups"), ("C03", "c03", "real_groups"), ("C04", "c04", "real_groups"),
+                 ("C05", "c05", "real_groups"), ("C09", "c09", "real_groups"), ("C14", "c14", "oracle_groups"), ("C15", "c15", "real_groups"),
+                 ("C16", "c16", "real_groups"), ("C17", "c17", "real_groups"), ("C19", "c19", "real_groups"), ("C20", "c20", "real_groups")]
+
+def cross_groups(tier, seed):
+    import importlib
+    rng = random.Random(seed * 6151 + 29)
+    budget = 70 if tier == "quick" else 400          # calls per property
+    out = []; skipped = []
+    for pid, modname, fn in CROSS_MODULES:
+        try:
+            mod = importlib.import_module("props." + modname)
+            groups = getattr(mod, fn)("quick", seed)
+        except Exception as e:
+            skipped.append("%s: %s" % (pid, str(e)[:120])); continue
+        groups = [g for g in groups if g.get("calls")]
+        if not groups:
+            continue
+        per = max(budget // len(groups), 2)
+        for gi, g in enumerate(groups):
+            name, alt = ALTS[(gi * 3 + seed + int(pid[1:])) % len(ALTS)]
+            calls = rng.sample(g["calls"], min(per, len(g["calls"])))
+            # a macro given twice with different values does not compile: the alternative wins
+            keys = set(d.split("=")[0] for d in alt.get("defs", []))
+            defs = [d for d in g.get("defs", ()) if d.split("=")[0] not in keys] + list(alt.get("defs", []))
+            ng = dict(g); ng.update({"key": "%s:%s @ %s" % (pid, g["key"], name), "calls": calls, "defs": defs,
+                                     "std": alt.get("std", g.get("std", "c++14")), "opt": alt.get("opt", g.get("opt", "-O2")),
+                                     "home": {"std": g.get("std", "c++14"), "opt": g.get("opt", "-O1"), "defs": list(g.get("defs", ()))}, "pid": pid, "alt": name})
+            out.append(ng)
+    return out, skipped
+
+def cross_stage(v, wd, tier, seed):
+    from vlib import flow
+    groups, skipped = cross_groups(tier, seed)
+    nrej0 = len(symrun.REJECTED)
+    n, fails, infra, samples = flow.run_oracle_groups(groups, wd, per_tu=25)
+    bykey = {g["key"]: g for g in groups}
+    # wrong values under the alternative configuration: is the same call right at home?  (if it is wrong there too it is
+    # the owning property's violation, reported by its own check; here only the configuration dependence is judged)
+    recheck = {}
+    for g, line, call in fails:
+        if call: recheck.setdefault(g["key"], []).append((line, call))
+    rejected = [r for r in symrun.REJECTED[nrej0:]]
+    for r in rejected:
+        recheck.setdefault(r["group"], []).append((None, r["call"]))
+    crashed = [e for e in infra if e.get("crashed_single")]
+    for e in crashed:
+        recheck.setdefault(e["group"], []).append((None, e["calls"][0]))
+    home_groups = []
+    for key, items in recheck.items():
+        g = bykey[key]; h = g["home"]
+        hg = dict(g); hg.update({"key": key + " [home]", "calls": sorted(set(c for _, c in items)), "std": h["std"], "opt": h["opt"], "defs": h["defs"]})
+        home_groups.append(hg)
+    home_ok = set()
+    if home_groups:
+        nrej1 = len(symrun.REJECTED)
+        hres = symrun.run_groups(home_groups, wd, per_tu=1)
+        for r in hres:
+            rr = r["res"]
+            if rr.get("rejected") or rr["rc_compile"] != 0 or rr["rc_run"] != 0: continue
+            lines = [l for l in rr["out"].split("\n") if "|" in l]
+            if lines and all(l.split("|", 1)[1].strip().startswith("ok") for l in lines):
+                home_ok.add((r["group"]["key"][:-7], r["calls"][0]))
+        del symrun.REJECTED[nrej1:]
+    del symrun.REJECTED[nrej0:]
+    nv = 0
+    def rep(kind, g, call, detail):
+        v.violation("cross %s %s %s" % (kind, g["key"], call),
+                    {"kind": "cross-" + kind, "property_of_case": g["pid"], "call": call, "header": g["header"], "isa": g["isa"], "pre": g.get("pre", ""),
+                     "alternative": {"std": g["std"], "opt": g["opt"], "defs": g["defs"]}, "home": g["home"], "detail": detail,
+                     "note": "the same call is judged ok under the home configuration and %s under the alternative one" % kind})
+    for g, line, call in fails:
+        if call and (g["key"], call) in home_ok:
+            rep("wrong-value", g, call, line); nv += 1
+    for r in rejected:
+        g = bykey[r["group"]]
+        if (g["key"], r["call"]) in home_ok:
+            sig = "einsum-dimension-mismatch" if "throw-expression" in r["why"] else "other"
+            rep("compile-rejected sig=%s" % sig, g, r["call"], r["why"]); nv += 1
+    for e in crashed:
+        g = bykey[e["group"]]
+        if (g["key"], e["calls"][0]) in home_ok:
+            rep("crash", g, e["calls"][0], e["what"] + " " + e.get("out", "")[-300:]); nv += 1
+    other_infra = [e for e in infra if not e.get("crashed_single")]
+    for e in other_infra[:5]:
+        v.notes.append("cross stage: unit of %s did not build/run as a whole and could not be bisected: %s" % (e["group"], e["what"]))
+    per = {}
+    for g in groups: per[g["pid"]] = per.get(g["pid"], 0) + len(g["calls"])
+    return {"cross_cases": n, "cross_calls_per_property": per, "cross_alternatives": sorted(set(g["alt"] for g in groups)), "cross_failures_alt_only": nv,
+            "cross_failures_also_at_home": len(fails) + len(rejected) + len(crashed) - nv, "cross_skipped_modules": skipped, "cross_samples": samples[:2]}
 
 def run(tier, seed):
     v = core.Verdict(PID, tier, seed)
@@ -319,8 +437,10 @@ def run(tier, seed):
                     if not okc:
                         v.violation("approx %s %s vs %s" % (cid, k, refn),
                                     {"kind": "cfg-approx", "case": cid, "config": k, "reference": refn, "got": d[k], "ref": r0, "ratio_to_tolerance": w})
+        cross = cross_stage(v, wd, tier, seed)
+    v.cov.update(cross)
     v.cov.update({
-        "evaluations": pairs + nprobe, "distinct_nontrivial": multi,
+        "evaluations": pairs + nprobe + cross["cross_cases"], "distinct_nontrivial": multi,
         "rule": "one evaluation = one corpus case under one configuration (plus one per flag set of the configuration-table probe); "
                 "non-trivial = a case that ran under at least three different instruction-set flag sets",
         "configs": [cname(c) for c in cfgs], "n_configs": len(cfgs), "compiler_runs": len(jobs), "corpus_calls": len(calls), "cases": len(cases),
